@@ -116,10 +116,10 @@ pub fn run(p: &Params, rep: &mut Report) {
     // random part: longer strings over a 5-letter alphabet with planted occurrences and overlapping patterns
     let mut rng = p.rng(6);
     let nrand = p.size(60_000, 1_000_000);
-    let alpha = [0x61u32, 0x62, 0x63, 0x2FFFF, 0];
+    let alpha = [0x61u32, 0x62, 0x63, 0x2FFFF, 0, 0xD800, 0xFFFD];
     for _ in 0..nrand {
-        let la = rng.usize(41);
-        let na = if rng.chance(1, 2) { 2 } else { 5 };
+        let la = if rng.chance(1, 6) { *rng.pick(&[7usize, 8, 9, 15, 16, 17, 31, 32, 33, 63, 64, 65, 127, 128, 129]) } else { rng.usize(41) };
+        let na = match rng.below(4) { 0 | 1 => 2, 2 => 5, _ => 7 };
         let mut a: Vec<u32> = (0..la).map(|_| *rng.pick(&alpha[..na])).collect();
         let lb = rng.usize(5);
         let b: Vec<u32> = if !a.is_empty() && rng.chance(1, 2) {
